@@ -87,6 +87,13 @@ fn main() {
         if let Some(t) = j.get("tier").and_then(|s| s.as_str()) {
             tier = if t == "thorough" { Tier::Thorough } else { Tier::Quick };
         }
+        // a violation observed by the checked-profile child is replayed by that binary
+        if j.get("profile").and_then(|s| s.as_str()) == Some("checked") && profile_name() == "release" {
+            if let Ok(bin) = std::env::var("VERIF_CHECKED_BIN") {
+                let st = std::process::Command::new(bin).args(&args[1..]).env_remove("VERIF_CHECKED_BIN").status().expect("run checked binary");
+                std::process::exit(st.code().unwrap_or(2));
+            }
+        }
         replay = Some((stream, idx));
     }
     let threads = std::env::var("VERIF_THREADS").ok().and_then(|s| s.parse().ok()).unwrap_or(16usize);
